@@ -49,6 +49,9 @@ func classesOf(tags string) map[string]bool {
 		switch {
 		case t == "t" || t == "tK" || t == "tm":
 			cl["text"] = true
+		case t == "tS": // a character whose wrap scrolls the region
+			cl["text"] = true
+			cl["scroll"] = true
 		case t == "resize":
 			cl["resize"] = true
 		case t == "eof" || t == "init" || t == "" || t == "?":
@@ -129,17 +132,37 @@ func classesOf(tags string) map[string]bool {
 	return cl
 }
 
-var styleOnlyRe = regexp.MustCompile(`/[0-9a-f]+\.[0-9a-f]+\.[0-9a-f]+`)
+var rowDiffRe = regexp.MustCompile(`row \d+ \d+ impl\[([^\]]*)\] model\[([^\]]*)\]`)
+
+// glyphsOf expands a run-length encoded row ("n*glyph/style …") into its glyph sequence
+// without the attributes.
+func glyphsOf(rle string) string {
+	var sb strings.Builder
+	for _, tok := range strings.Fields(rle) {
+		n, rest := 1, tok
+		if i := strings.Index(tok, "*"); i > 0 {
+			fmt.Sscanf(tok[:i], "%d", &n)
+			rest = tok[i+1:]
+		}
+		if j := strings.LastIndex(rest, "/"); j >= 0 {
+			rest = rest[:j]
+		}
+		for k := 0; k < n; k++ {
+			sb.WriteString(rest)
+			sb.WriteByte(' ')
+		}
+	}
+	return sb.String()
+}
 
 // styleOnly: a row divergence in which the glyphs agree and only attributes differ.
 func styleOnly(detail string) bool {
-	re := regexp.MustCompile(`row \d+ \d+ impl\[([^\]]*)\] model\[([^\]]*)\]`)
-	ms := re.FindAllStringSubmatch(detail, -1)
+	ms := rowDiffRe.FindAllStringSubmatch(detail, -1)
 	if len(ms) == 0 {
 		return false
 	}
 	for _, m := range ms {
-		if styleOnlyRe.ReplaceAllString(m[1], "") != styleOnlyRe.ReplaceAllString(m[2], "") {
+		if glyphsOf(m[1]) != glyphsOf(m[2]) {
 			return false
 		}
 	}
@@ -162,7 +185,8 @@ func hasProj(clause string, names ...string) bool {
 func owns(p string, f finding) bool {
 	switch f.Kind {
 	case "panic":
-		return p == "C01"
+		// a panic inside Resize also breaks what Resize promises (C18)
+		return p == "C01" || (p == "C18" && f.Clause == "resize") || (p == f.Prop && f.Prop != "")
 	case "monitor":
 		return f.Prop == p
 	case "driver":
@@ -178,7 +202,8 @@ func owns(p string, f finding) bool {
 	case "C03":
 		return cl["text"] && content
 	case "C04":
-		return cl["motion"] && content
+		// also: where Resize leaves the cursor and the saved cursor (geometry only)
+		return (cl["motion"] && content) || (cl["resize"] && hasProj(proj, "Mgeo", "Ageo") && !hasProj(proj, "R"))
 	case "C05":
 		return cl["erase"] && content
 	case "C06":
@@ -188,13 +213,14 @@ func owns(p string, f finding) bool {
 	case "C09":
 		return f.Kind == "framing" || hasProj(proj, "G") || ((cl["unknown"] || cl["dcs"] || cl["c0other"]) && proj != "") || (cl["osc"] && proj != "")
 	case "C10":
-		return cl["bell"] && hasProj(proj, "E")
+		return (cl["bell"] && hasProj(proj, "E")) || hasProj(proj, "L")
 	case "C14":
 		return hasProj(proj, "W")
 	case "C17":
 		return (cl["mode"] && proj != "") || hasProj(proj, "V")
 	case "C18":
-		return cl["resize"] && proj != ""
+		// the initial sizing is a Resize too (from the 80x24 default to the case's size)
+		return (cl["resize"] || f.Tags == "init") && proj != ""
 	case "C19":
 		return hasProj(proj, "Mkbd", "Akbd") || (cl["kbd"] && hasProj(proj, "W"))
 	case "C20":
@@ -604,6 +630,28 @@ func main() {
 			st.Violations = append(st.Violations, path)
 			exit = 1
 		}
+	}
+	// the correspondence itself: when most cases are lost to divergences that belong to other
+	// properties before they reach this property's operations, the model no longer describes
+	// the code and the property is no longer shown to hold
+	foreignDiv := 0
+	for k, n := range st.Foreign {
+		if strings.HasPrefix(k, "diverge:") || strings.HasPrefix(k, "framing:") || strings.HasPrefix(k, "panic:") {
+			foreignDiv += n
+		}
+	}
+	if exit == 0 && st.Cases >= 20 && foreignDiv*2 > st.Cases {
+		_ = os.MkdirAll(*replayDir, 0o755)
+		path := filepath.Join(*replayDir, fmt.Sprintf("%s-%d-correspondence.json", *prop, *seed))
+		rep := map[string]any{"property": *prop, "kind": "no-failing-input-found",
+			"broken": "correspondence between the Lean model (lean/TM) and the implementation: model and code disagree on steps that belong to other properties in more than half of the cases, before this property's operations are reached",
+			"foreign_findings": st.Foreign, "cases": st.Cases, "seed": *seed}
+		b, _ := json.MarshalIndent(rep, "", " ")
+		_ = os.WriteFile(path, b, 0o644)
+		fmt.Printf("VIOLATION property=%s replay=%s no-failing-input-found\n", *prop, path)
+		fmt.Printf("  correspondence broken: %d of %d cases diverge from the model at steps of other properties\n", foreignDiv, st.Cases)
+		st.Violations = append(st.Violations, path)
+		exit = 1
 	}
 	st.NoViolation = exit == 0
 	st.WallS = time.Since(start).Seconds()
